@@ -659,6 +659,11 @@ let run_case (t : string list) : string =
         (b (sa.MutualDial.clX || sb.MutualDial.clX)) (b (sa.MutualDial.clX || sb.MutualDial.clX))
         (b (sa.MutualDial.clY || sb.MutualDial.clY)) (b (sa.MutualDial.clY || sb.MutualDial.clY))
         (Stdlib.String.concat "," (Stdlib.List.rev !pre))
+  | [ "mdlimit"; lim; lt ] ->
+      (* which of the two dials can be the pair's one connection, with a connection limit of 1 at node lim (MutualDialLimit.v) *)
+      let l = match lim with "A" -> MutualDialLimit.limit_at MutualDial.NA | "B" -> MutualDialLimit.limit_at MutualDial.NB | _ -> MutualDialLimit.no_limit in
+      Stdlib.String.concat ","
+        (Stdlib.List.map (fun c -> match c with MutualDial.CX -> "X" | MutualDial.CY -> "Y") (MutualDialLimit.possible_survivors l (lt = "1")))
   | [ "mdreach"; lt ] ->
       (* all maximal schedules of the mutual-dial system, as label lists *)
       let lt = lt = "1" in
